@@ -136,6 +136,17 @@ def run_one(ck, prog):
                             cal = t2.get("callee") or ""
                             if cal.endswith(("core::mem::drop", "ptr::drop_in_place", "FnOnce::call_once", "FnMut::call_mut", "Fn::call")) and _re.search(r"\b[TF]\b", str(t2.get("generic", "")) + " ".join(fn["locals"][l]["ty"] for a2 in t2.get("args", []) for l in ([a2["p"]["l"]] if a2.get("k") in ("move", "copy") else []))):
                                 user.append((b2["id"], cal))
+                    # ... nor anything else that can panic: after the hand-over only the release primitives run (a formatted message that
+                    # panics in a user Display re-enters the panic handler, which releases everything a second time)
+                    QUIET = ("sc::platform::syscall", "Tsm::dealloc", "Tsm::release", "get_tls_ptr", "::cast", "Layout::new", "alloc::alloc::dealloc", "Result::<T, E>::is_err", "Result::<T, E>::is_ok",
+                             "hint::unreachable_unchecked", "Tsm::get_sync", "Tsm::get_futex", "ptr::read", "::as_ptr", "ThreadLocalStorage::thread_stack_info")
+                    for b2 in fn["blocks"]:
+                        if b2["id"] not in after or b2.get("cleanup") or b2["id"] not in c.cfg.live_blocks():
+                            continue
+                        t2 = b2["term"]
+                        if t2["k"] == "call" and t2.get("callee") and not any(q in t2["callee"] for q in QUIET) and not any(u[0] == b2["id"] for u in user):
+                            # helpers introduced by a refactoring are expanded by the normaliser; what is left is a real call
+                            user.append((b2["id"], t2["callee"]))
                     ck.ob("C06.1", f"no-user-code-after-the-hand-over|{p}", not user, fn=p, site=c.site(user[0][0]) if user else None,
                           detail=f"after the hand-over flag was flipped the thread runs {[u[1] for u in user]}: user code that panics there makes the panic handler release the join block again")
             if op.op in ("store", "swap", "fetch_or", "fetch_and", "fetch_xor") and mentions(op.recv, c.prov, lambda z: z[0] == "call" and (z[1] or "").endswith("Tsm::get_sync")):
